@@ -52,6 +52,29 @@ def cases(rng, tier):
             found += 1
         if k % 4000 == 0 and tier == "quick":
             break
+    # keys whose HASH160 (of the key, or of the script built from it) starts with a zero byte: the Base58
+    # leading-'1' corner of mainnet P2PKH addresses (version byte 0x00 followed by 0x00...)
+    found = {"p2pkh": 0, "p2pkh-u": 0, "p2sh_p2wpkh": 0}
+    want = 2 if tier == "quick" else 8
+    k = rng.randrange(1, 2 ** 64)
+    tries = 0
+    while min(found.values()) < want and tries < 4000:
+        tries += 1
+        k += 1
+        x, y = point(k)
+        sc = sec_c(x, y)
+        if found["p2pkh"] < want and h160(sc)[0] == 0:
+            found["p2pkh"] += 1
+            for t in "01":
+                yield "addr p2pkh %s %s" % (hx(sc), t), "addr-h160-leading-zero"
+                yield "pk_addr %s 1 %s p2pkh" % (hx(sc), t), "addr-h160-leading-zero"
+        if found["p2pkh-u"] < want and h160(sec_u(x, y))[0] == 0:
+            found["p2pkh-u"] += 1
+            yield "pk_addr %s 0 0 p2pkh" % hx(sc), "addr-h160-leading-zero-uncompressed"
+        if found["p2sh_p2wpkh"] < want and h160(b"\x00\x14" + h160(sc))[0] == 0:
+            found["p2sh_p2wpkh"] += 1
+            for t in "01":
+                yield "addr p2sh_p2wpkh %s %s" % (hx(sc), t), "addr-scripthash-leading-zero"
     for k in ks:
         x, y = point(k)
         sc = sec_c(x, y)
